@@ -11,7 +11,8 @@
 //           dependency targets absent from the lock;
 //   Sort    fails iff the dependency graph has a cycle;
 //   TraceNode(p) has exactly the packages reachable from p by one or more edges as keys;
-//   GetNode / NodeExists agree with the set of present and implied packages.
+//   GetNode / NodeExists agree with the set of present and implied packages;
+//   (upgrading DAG) every node has collected exactly the constraints of the edges pointing at it.
 package dag_test
 
 import (
@@ -59,7 +60,9 @@ func (l boundedLock) packages() []v1beta1.LockPackage {
 		lp := v1beta1.LockPackage{Name: fmt.Sprintf("n%d", i), Source: fmt.Sprintf("p%d", i), Version: "1.0.0"}
 		for j := 0; j < l.N; j++ {
 			if l.Edge[i][j] {
-				lp.Dependencies = append(lp.Dependencies, v1beta1.Dependency{Package: fmt.Sprintf("p%d", j), Constraints: "1.0.0"})
+				// every edge carries its own constraint (all satisfied by the installed 1.0.0), so
+				// that the parent constraints a node collects can be told apart
+				lp.Dependencies = append(lp.Dependencies, v1beta1.Dependency{Package: fmt.Sprintf("p%d", j), Constraints: fmt.Sprintf(">=0.%d.%d", i, j)})
 			}
 		}
 		out = append(out, lp)
@@ -127,6 +130,23 @@ func checkBoundedLock(name string, d dag.DAG, l boundedLock) string {
 		n, err := d.GetNode(id(i))
 		if (err == nil) != known || (known && n.Identifier() != id(i)) {
 			return fmt.Sprintf("%s.GetNode(%s) wrong: %v %v", name, id(i), n, err)
+		}
+		if known && name == "MapUpgradingDag" {
+			// the version-upgrade path chooses among versions that satisfy every parent: a node
+			// must have collected the constraint of every edge that points at it
+			want := map[string]bool{}
+			for p := 0; p < l.N; p++ {
+				if l.Present[p] && l.Edge[p][i] {
+					want[fmt.Sprintf(">=0.%d.%d", p, i)] = true
+				}
+			}
+			got := map[string]bool{}
+			for _, c := range n.GetParentConstraints() {
+				got[c] = true
+			}
+			if fmt.Sprint(keys(got)) != fmt.Sprint(keys(want)) {
+				return fmt.Sprintf("%s: node %s collected parent constraints %v, want %v", name, id(i), keys(got), keys(want))
+			}
 		}
 		if !l.Present[i] {
 			continue
